@@ -11,6 +11,7 @@ CONSTANTS
   MaxFetchErr = 99
   MaxClose = 99
   MaxDropped = 99
+  MaxSwallow = 99
   MaxQueue = 2
 VIEW genview
 CONSTRAINT GenBound
